@@ -154,6 +154,7 @@ def sub(a, b):
 
 
 def mul(a, b):
+    a, b = xr_finite(a), xr_finite(b)
     if not is_sym(a) and not is_sym(b):
         return a * b
     if isinstance(a, list) or isinstance(b, list):
@@ -178,6 +179,7 @@ def neg(a):
 
 def div(a, b):
     """Python true division -> real.  Definedness is the caller's business."""
+    a, b = xr_finite(a), xr_finite(b)
     if not is_sym(a) and not is_sym(b):
         if b == 0:
             raise ZeroDivisionError
@@ -238,6 +240,8 @@ def power(a, b):
 
 
 def cmp(op, a, b):
+    if isinstance(a, XR) or isinstance(b, XR):
+        return xr_cmp(op, a, b)
     if not is_sym(a) and not is_sym(b):
         if op == '==':
             return a == b
@@ -318,6 +322,8 @@ def implies(a, b):
 
 
 def ite(c, a, b):
+    if isinstance(a, XR) or isinstance(b, XR):
+        return xr_ite(c, a, b)
     if not is_sym(c):
         return a if c else b
     if not is_sym(a) and not is_sym(b) and type(a) == type(b) and a == b:
@@ -338,6 +344,8 @@ def absval(a):
 
 
 def minval(a, b):
+    if isinstance(a, XR) or isinstance(b, XR):
+        return xr_min(a, b)
     if not is_sym(a) and not is_sym(b):
         return min(a, b)
     x, y, _ = _coerce2(a, b)
@@ -354,6 +362,8 @@ def maxval(a, b):
 
 def same(a, b):
     """Structural identity of two values (used when merging states)."""
+    if isinstance(a, XR) and isinstance(b, XR):
+        return same(a.inf, b.inf) and same(a.val, b.val)
     if is_sym(a) and is_sym(b):
         return a.eq(b)
     if is_sym(a) or is_sym(b):
@@ -403,3 +413,69 @@ def fresh(prefix, sort='real'):
     if sort == 'bool':
         return z3.Bool(n)
     raise VCError(sort)
+
+
+# ------------------------------------------------------------ extended reals
+class XR(object):
+    """An extended real: +infinity or a finite real.  `inf` is a bool / z3
+    Bool, `val` the finite value (meaningful when not inf).  Supports what
+    code does with np.inf used as 'no constraint': min, comparisons, isinf,
+    assignment, merging.  Arithmetic on an XR needs it to be known finite."""
+
+    def __init__(self, inf, val):
+        self.inf = inf
+        self.val = val
+
+    def __repr__(self):
+        return 'XR(inf=%s, val=%s)' % (self.inf, self.val)
+
+
+INF = XR(True, Fraction(0))
+
+
+def xr(v):
+    return v if isinstance(v, XR) else XR(False, v)
+
+
+def xr_min(a, b):
+    a, b = xr(a), xr(b)
+    # Python: min(a, b) returns a unless b < a
+    lt = xr_cmp('<', b, a)
+    return xr_ite(lt, b, a)
+
+
+def xr_ite(c, a, b):
+    a, b = xr(a), xr(b)
+    if not is_sym(c):
+        return a if c else b
+    inf = ite(c, a.inf, b.inf)
+    val = ite(c, a.val, b.val)
+    return XR(inf, val)
+
+
+def xr_cmp(op, a, b):
+    a, b = xr(a), xr(b)
+    fin = cmp(op, a.val, b.val)
+    if op == '<':
+        return b_and(b_not(a.inf), b_or(b.inf, fin))
+    if op == '<=':
+        return b_or(b.inf, b_and(b_not(a.inf), fin))
+    if op == '>':
+        return xr_cmp('<', b, a)
+    if op == '>=':
+        return xr_cmp('<=', b, a)
+    if op == '==':
+        return b_or(b_and(a.inf, b.inf),
+                    b_and(b_not(a.inf), b_not(b.inf), fin))
+    if op == '!=':
+        return b_not(xr_cmp('==', a, b))
+    raise VCError(op)
+
+
+def xr_finite(a, what='value'):
+    """The finite value of an XR known (concretely) to be finite."""
+    if isinstance(a, XR):
+        if a.inf is False:
+            return a.val
+        raise VCError('arithmetic on a possibly infinite %s' % what)
+    return a
